@@ -370,8 +370,9 @@ class SemM(Model):
 class CamM(Model):
     ports = {"read": 1, "write": 1, "remove": 1, "push": 1}
 
-    def __init__(self, n, keybits, nkeys):
+    def __init__(self, n, keybits, nkeys, two_fields=False):
         self.n, self.dct, self.keybits, self.nkeys = n, {}, keybits, nkeys
+        self.two = two_fields  # the key is a structure {a, b}: keys that agree in `a` but differ in `b` must be told apart
         self.keys = None
         self.hot = 0
 
@@ -392,13 +393,19 @@ class CamM(Model):
                 return None
             if k not in free:
                 k = rnd.choice(free)
-            return {"addr": {"a": k}, "data": {"d": rnd.randrange(1, 256)}}
+            return {"addr": self.key(k), "data": {"d": rnd.randrange(1, 256)}}
         if p == "write":
-            return {"addr": {"a": k}, "data": {"d": rnd.randrange(1, 256)}}
-        return {"addr": {"a": k}}
+            return {"addr": self.key(k), "data": {"d": rnd.randrange(1, 256)}}
+        return {"addr": self.key(k)}
+
+    def key(self, k):
+        return {"a": k >> 1, "b": k & 1} if self.two else {"a": k}
+
+    def unkey(self, a):
+        return (a["a"] << 1) | a["b"] if self.two else a["a"]
 
     def result(self, p, a):
-        k = a["addr"]["a"]
+        k = self.unkey(a["addr"])
         if p == "read":
             return ("r", k in self.dct, self.dct.get(k))
         if p == "write":
@@ -412,17 +419,17 @@ class CamM(Model):
     def nontrivial(self, c):
         if len(c) < 2:
             return None
-        ks = [a["addr"]["a"] for a, _ in c.values()]
+        ks = [self.unkey(a["addr"]) for a, _ in c.values()]
         samek = len(set(ks)) < len(ks)
         return f"n{self.n}|{'+'.join(sorted(c))}|{'samekey' if samek else 'diff'}|sz{len(self.dct)}"
 
     def apply(self, c):
-        if "write" in c and c["write"][0]["addr"]["a"] in self.dct:
-            self.dct[c["write"][0]["addr"]["a"]] = c["write"][0]["data"]["d"]
+        if "write" in c and self.unkey(c["write"][0]["addr"]) in self.dct:
+            self.dct[self.unkey(c["write"][0]["addr"])] = c["write"][0]["data"]["d"]
         if "remove" in c:
-            self.dct.pop(c["remove"][0]["addr"]["a"], None)
+            self.dct.pop(self.unkey(c["remove"][0]["addr"]), None)
         if "push" in c:
-            self.dct[c["push"][0]["addr"]["a"]] = c["push"][0]["data"]["d"]
+            self.dct[self.unkey(c["push"][0]["addr"])] = c["push"][0]["data"]["d"]
 
     def state_key(self):
         return f"n{self.n}sz{len(self.dct)}"
@@ -660,8 +667,9 @@ class CircM(Model):
 # ------------------------------------------------------------------------------------------------
 # C21: MemoryBank
 class MemBankM(Model):
-    def __init__(self, depth, width, rp, wp, transparent, ror, gran, counters=None):
+    def __init__(self, depth, width, rp, wp, transparent, ror, gran, counters=None, struct=False):
         self.depth, self.width, self.rp, self.wp, self.tr, self.ror, self.gran = depth, width, rp, wp, transparent, ror, gran
+        self.struct = struct  # rows are a two-field structure {lo, hi} instead of a plain integer
         self.mem = [0] * depth
         self.q = [collections.deque() for _ in range(rp)]
         self.ports = {}
@@ -709,15 +717,26 @@ class MemBankM(Model):
                     self.waddrs.insert(0, a)
             if i >= len(self.waddrs):
                 return None
-            a = {"addr": self.waddrs[i], "data": rnd.getrandbits(self.width)}
+            a = {"addr": self.waddrs[i], "data": self.enc(rnd.getrandbits(self.width))}
             if self.gran is not None:
                 a["mask"] = rnd.getrandbits(self.ng)
             return a
         return {}
 
+    def enc(self, v):
+        if not self.struct:
+            return v
+        h = self.width // 2
+        return {"lo": v & ((1 << h) - 1), "hi": v >> h}
+
+    def dec(self, d):
+        if not isinstance(d, dict):
+            return d
+        return d["lo"] | (d["hi"] << (self.width // 2))
+
     def wr(self, mem, a):
         if self.gran is None:
-            mem[a["addr"]] = a["data"]
+            mem[a["addr"]] = self.dec(a["data"]) if hasattr(self, "dec") else a["data"]
             return
         v = mem[a["addr"]]
         for g in range(self.ng):
@@ -755,7 +774,7 @@ class MemBankM(Model):
         for i in range(self.rp):
             if f"read_resp#{i}" in c:
                 e = self.q[i].popleft()
-                out = c[f"read_resp#{i}"][1]["data"]
+                out = self.dec(c[f"read_resp#{i}"][1]["data"])
                 exp = e[1] if e[0] == "v" else (after if self.tr else self.mem)[e[2]]
                 self.stats["responses_checked"] += 1
                 if out != exp:
